@@ -533,25 +533,32 @@ Fixpoint nd_kids (rec : dict -> nmap -> nat -> ndres) (m : objmap) (depth : N) (
     end
   end.
 
+(* the Kids part of one call of get_named_destinations_limited *)
+Definition nd_after_kids (rec : dict -> nmap -> nat -> ndres) (m : objmap) (tree : dict) (nm : nmap) (budget : nat)
+    (depth : N) : ndres :=
+  match dict_get tree K_Kids with
+  | Some (OArr l) => nd_kids rec m depth l nm budget
+  | Some _ => (nm, Err)
+  | None => (nm, Ok budget)
+  end.
+
+(* one call: Kids, then Names *)
+Definition nd_node (rec : dict -> nmap -> nat -> ndres) (m : objmap) (tree : dict) (nm : nmap) (budget : nat)
+    (depth : N) : ndres :=
+  match nd_after_kids rec m tree nm budget depth with
+  | (nm1, Ok b1) =>
+    match dict_get tree Q_Names with
+    | Some (OArr l) => let '(nm2, okb) := nd_names m l nm1 in (nm2, if okb then Ok b1 else Err)
+    | Some _ => (nm1, Err)
+    | None => (nm1, Ok b1)
+    end
+  | r => r
+  end.
+
 Fixpoint nd_walk (fuel : nat) (m : objmap) (tree : dict) (nm : nmap) (budget : nat) (depth : N) : ndres :=
   match fuel with
   | O => (nm, OutOfFuel)
-  | S f =>
-    let after_kids : ndres :=
-      match dict_get tree K_Kids with
-      | Some (OArr l) => nd_kids (fun kd nm' b => nd_walk f m kd nm' b (depth + 1)%N) m depth l nm budget
-      | Some _ => (nm, Err)
-      | None => (nm, Ok budget)
-      end in
-    match after_kids with
-    | (nm1, Ok b1) =>
-      match dict_get tree Q_Names with
-      | Some (OArr l) => let '(nm2, okb) := nd_names m l nm1 in (nm2, if okb then Ok b1 else Err)
-      | Some _ => (nm1, Err)
-      | None => (nm1, Ok b1)
-      end
-    | r => r
-    end
+  | S f => nd_node (fun kd nm' b => nd_walk f m kd nm' b (depth + 1)%N) m tree nm budget depth
   end.
 
 Definition fuel_nd (m : objmap) : nat := length m + 1.
@@ -620,7 +627,69 @@ Definition get_outline (m : objmap) (node : dict) (nm : nmap) : nmap * out (opti
 (* result of the outline walk: the destination map (mutated in place), then outlines and remaining budget *)
 Definition olres := (nmap * out (list outline * nat))%type.
 
-(* the `loop` of get_outlines_limited started at dictionary [node]; budget = *ref_budget *)
+(* the recursive call get_outlines_limited(Some(first), Some([]), .., depth + 1) up to its loop:
+   [rec] is the walk itself; budget = *ref_budget *)
+Definition ol_first (rec : dict -> nmap -> nat -> N -> olres) (m : objmap) (nm1 : nmap) (budget : nat) (depth : N)
+    (first : obj) : olres :=
+  match first with
+  | ODict fd => rec fd nm1 budget (depth + 1)%N
+  | ORef i g =>
+    match budget with
+    | O => (nm1, Err)
+    | S b => match get_object m (i, g) with
+             | Some (ODict fd) => rec fd nm1 b (depth + 1)%N
+             | _ => (nm1, Err)
+             end
+    end
+  | _ => (nm1, Err)
+  end.
+
+(* `if let Ok(first) = node.get(b"First") { depth test; recursive call; push SubOutlines if non-empty }` *)
+Definition ol_sub (rec : dict -> nmap -> nat -> N -> olres) (m : objmap) (node : dict) (nm1 : nmap) (budget : nat)
+    (depth : N) : olres :=
+  match dict_get node Q_First with
+  | None => (nm1, Ok ([], budget))
+  | Some first =>
+    if (OUTLINE_DEPTH_LIMIT <=? depth)%N then (nm1, Err)
+    else
+      match ol_first rec m nm1 budget depth first with
+      | (nm2, Ok ([], b2)) => (nm2, Ok ([], b2))
+      | (nm2, Ok (subs, b2)) => (nm2, Ok ([OSub subs], b2))
+      | e => e
+      end
+  end.
+
+(* one turn of the `loop` of get_outlines_limited after get_outline: the First recursion, the Next step
+   (on Next [rec] is the next turn of the loop); [item] is what `if let Ok(Some(outline))` pushed *)
+Definition ol_tail (rec : dict -> nmap -> nat -> N -> olres) (m : objmap) (node : dict) (nm1 : nmap)
+    (item : list outline) (budget : nat) (depth : N) : olres :=
+  match ol_sub rec m node nm1 budget depth with
+  | (nm2, Ok (s, b2)) =>
+    match dict_get node Q_Next with
+    | Some (ORef i g) =>
+      match b2 with
+      | O => (nm2, Err)
+      | S b3 =>
+        match get_dictionary m (i, g) with
+        | Some n =>
+          match rec n nm2 b3 depth with
+          | (nm3, Ok (r', b4)) => (nm3, Ok (item ++ s ++ r', b4))
+          | e => e
+          end
+        | None => (nm2, Ok (item ++ s, b3))
+        end
+      end
+    | Some (ODict n) =>
+      match rec n nm2 b2 depth with
+      | (nm3, Ok (r', b4)) => (nm3, Ok (item ++ s ++ r', b4))
+      | e => e
+      end
+    | _ => (nm2, Ok (item ++ s, b2))
+    end
+  | e => e
+  end.
+
+(* the `loop` of get_outlines_limited started at dictionary [node] *)
 Fixpoint ol_walk (fuel : nat) (m : objmap) (node : dict) (nm : nmap) (budget : nat) (depth : N) : olres :=
   match fuel with
   | O => (nm, OutOfFuel)
@@ -629,54 +698,8 @@ Fixpoint ol_walk (fuel : nat) (m : objmap) (node : dict) (nm : nmap) (budget : n
     match r with
     | OutOfFuel => (nm1, OutOfFuel)
     | Panic p => (nm1, Panic p)
-    | _ =>
-      let item := match r with Ok (Some o) => [o] | _ => [] end in     (* `if let Ok(Some(outline))` *)
-      let sub : olres :=
-        match dict_get node Q_First with
-        | None => (nm1, Ok ([], budget))
-        | Some first =>
-          if (OUTLINE_DEPTH_LIMIT <=? depth)%N then (nm1, Err)
-          else
-            let rec : olres :=
-              match first with
-              | ODict fd => ol_walk f m fd nm1 budget (depth + 1)%N
-              | ORef i g =>
-                match budget with
-                | O => (nm1, Err)
-                | S b => match get_object m (i, g) with
-                         | Some (ODict fd) => ol_walk f m fd nm1 b (depth + 1)%N
-                         | _ => (nm1, Err)
-                         end
-                end
-              | _ => (nm1, Err)
-              end in
-            match rec with
-            | (nm2, Ok ([], b2)) => (nm2, Ok ([], b2))
-            | (nm2, Ok (subs, b2)) => (nm2, Ok ([OSub subs], b2))
-            | e => e
-            end
-        end in
-      match sub with
-      | (nm2, Ok (s, b2)) =>
-        let spend : option nat :=
-          match dict_get node Q_Next with
-          | Some (ORef _ _) => match b2 with O => None | S b => Some b end
-          | _ => Some b2
-          end in
-        match spend with
-        | None => (nm2, Err)
-        | Some b3 =>
-          match get_dict_in_dict m node Q_Next with
-          | Some n =>
-            match ol_walk f m n nm2 b3 depth with
-            | (nm3, Ok (r', b4)) => (nm3, Ok (item ++ s ++ r', b4))
-            | e => e
-            end
-          | None => (nm2, Ok (item ++ s, b3))
-          end
-        end
-      | e => e
-      end
+    | Ok (Some o) => ol_tail (ol_walk f m) m node nm1 [o] budget depth      (* `if let Ok(Some(outline))` *)
+    | _ => ol_tail (ol_walk f m) m node nm1 [] budget depth
     end
   end.
 
